@@ -7,9 +7,10 @@ from .. import nodegen
 
 ID = "C02"
 SUITES = ["core", "node"]
-LEAN_MODULES = ["VpnCloud.Proofs.C02", "VpnCloud.Proofs.C02Node"]
+LEAN_MODULES = ["VpnCloud.Proofs.C02", "VpnCloud.Proofs.C02Node", "VpnCloud.Proofs.C02More"]
 THEOREMS = ["VpnCloud.Proofs.C02." + n for n in ("roundtrip", "accepted_is_genuine", "reject_no_state", "garbage_rejected", "reflection_rejected", "cross_connection_rejected")] + [
             "VpnCloud.Proofs.C02Node.wire_is_sealed", "VpnCloud.Proofs.C02Node.pending_session_carries_nothing", "VpnCloud.Proofs.C02Node.pending_session_cannot_send"]
+THEOREMS = THEOREMS + ["VpnCloud.Proofs.C02More." + n for n in ('node_wire_is_sealed', 'wire_sealed_if_session_encrypted', 'iface_wire_is_sealed', 'cleartext_not_on_wire', 'cleartext_not_on_wire_all', 'plain_only_if_both', 'no_plain_all_sealed', 'node_wire_is_sealed_reach', 'no_plain_all_sealed_cur', 'session_plain_needs_peer_flag', 'responder_plain_needs_ping_flag', 'plain_peer_only_by_plain_handshake', 'wire_sealed_if_session_encrypted_net', 'tampered_dropped_node', 'altered_ciphertext_dropped', 'truncated_dropped', 'bad_key_id_dropped', 'altered_counter_dropped', 'cross_connection_dropped', 'reflected_dropped')]
 BATCH = 100
 SEARCH_BUDGET_S = 300
 EXPECTED_CLASSES = ["seal:d", "deliver:ok", "deliver:err", "tick:ok"]
@@ -67,6 +68,7 @@ def gen(tier, rng):
     for i in range(8 if thorough else 2):
         yield nodegen.attack_script(r, "node-attack-%d" % i, 3, 8)
     # "unless both ends explicitly enabled plain": meshes in which all / some nodes enabled it (a session is unencrypted only where both did)
+    yield nodegen.forge_script(r, "node-forged-seals", r.choice([1, 2, 3]))
     yield nodegen.plain_script(r, "node-plain-all", [True, True, True])
     yield nodegen.plain_script(r, "node-plain-mixed", [True, False, "only"])
     if thorough:
